@@ -6,8 +6,8 @@ COQ = VERIF + '/coq'
 HARNESS = VERIF + '/harness'
 WORK = VERIF + '/work'
 REPLAYS = VERIF + '/replays'
-UMH = HARNESS + '/target/debug/umh'
-UMM = VERIF + '/ocaml/bin/um_model'
+def UMH(g): return HARNESS + '/target/debug/umh_' + g
+def UMM(g): return VERIF + '/ocaml/bin/um_model_' + g
 FORBIDDEN = re.compile(r'\b(Admitted|admit|Axiom|Axioms|Parameter|Parameters|Conjecture|Conjectures|Hypothesis|Hypotheses|Variable|Variables|Unset\s+Guard|bypass_check|Admit\s+Obligations|Unset\s+Positivity|Unset\s+Universe|type-in-type|impredicative-set|native_compute)\b')
 ENV = dict(os.environ, CARGO_NET_OFFLINE='true', RUSTFLAGS='--cfg undermoon_verif')
 
@@ -80,9 +80,8 @@ class Check:
                     if w.startswith(('Variable', 'Hypothes')) and in_section > 0:
                         continue
                     problems.append('forbidden token %r in %s' % (w, os.path.relpath(f, COQ)))
-        if not os.path.exists(COQ + '/Makefile') or os.path.getmtime(COQ + '/Makefile') < os.path.getmtime(COQ + '/_CoqProject'):
-            sh('coq_makefile -f _CoqProject -o Makefile', cwd=COQ)
-        rc, out = sh('timeout 3000 make -j16 Props/%s.vo' % prop, cwd=COQ, timeout=3100)
+        sh(VERIF + '/tools/gen_coqproject.sh')
+        rc, out = sh('flock /verif/work/coq.lock timeout 3000 make -j16 Props/%s.vo' % prop, cwd=COQ, timeout=3100)
         open('%s/coq_%s.log' % (WORK, prop), 'w').write(out)
         if rc != 0:
             err = [l for l in out.split('\n') if 'Error' in l or 'File "' in l][:6]
@@ -128,16 +127,16 @@ class Check:
                 problems.append('coqchk rejected UM.Props.%s' % prop)
         return problems
 
-    def build_models(self):
-        rc, out = sh(VERIF + '/tools/build_model.sh', timeout=3600)
+    def build_models(self, group):
+        rc, out = sh(VERIF + '/tools/build_model.sh ' + group, timeout=3600)
         return [] if rc == 0 else ['model build/extraction failed: ' + out[-600:]]
 
     # ---------- implementation side ----------
-    def build_impl(self):
-        if not os.path.exists(HARNESS + '/Cargo.lock') or open(HARNESS + '/Cargo.lock').read() != open('/repo/Cargo.lock').read():
-            # keep the harness lock in step with the repository's (offline: no resolution possible)
-            pass
-        rc, out = sh('cargo build --offline 2>&1', cwd=HARNESS, timeout=3000)
+    def build_impl(self, group):
+        d = HARNESS + '/' + group
+        if not os.path.exists(d + '/Cargo.lock'):
+            sh('cp /repo/Cargo.lock ' + d + '/Cargo.lock')
+        rc, out = sh('cargo build --offline 2>&1', cwd=d, timeout=3000)
         open('%s/cargo_%s.log' % (WORK, self.prop), 'w').write(out)
         if rc != 0:
             errs = [l for l in out.split('\n') if l.startswith('error')][:8]
@@ -145,21 +144,21 @@ class Check:
         return []
 
     def run_impl(self, domain, cases, timeout=1200, jobs=1):
-        return self._run(UMH, domain, cases, timeout, jobs)
+        return self._run(UMH(domain), None, cases, timeout, jobs)
 
     def run_model(self, domain, cases, timeout=1200, jobs=1):
-        return self._run(UMM, domain, cases, timeout, jobs)
+        return self._run(UMM(domain), None, cases, timeout, jobs)
 
     def _run(self, exe, domain, cases, timeout, jobs):
         if jobs <= 1 or len(cases) < 4 * jobs:
-            rc, out = sh([exe, domain], inp='\n'.join(cases) + '\n', timeout=timeout)
+            rc, out = sh([exe], inp='\n'.join(cases) + '\n', timeout=timeout)
             lines = out.split('\n')
             if lines and lines[-1] == '': lines.pop()
             return rc, lines
         chunk = (len(cases) + jobs - 1) // jobs
         procs = []
         for i in range(0, len(cases), chunk):
-            p = subprocess.Popen([exe, domain], stdin=subprocess.PIPE, stdout=subprocess.PIPE, stderr=subprocess.STDOUT, text=True, env=ENV)
+            p = subprocess.Popen([exe], stdin=subprocess.PIPE, stdout=subprocess.PIPE, stderr=subprocess.STDOUT, text=True, env=ENV)
             procs.append((p, '\n'.join(cases[i:i + chunk]) + '\n'))
         import threading
         outs = [None] * len(procs)
@@ -258,17 +257,17 @@ def hexs(b):
     return b.hex() if b else '-'
 
 
-def standard_proof_phase(chk, trusted):
+def standard_proof_phase(chk, trusted, group):
     """Runs proof obligations + model build + impl build; returns True when correspondence can run."""
     chk.cov['trusted_base'] = trusted
     probs = chk.coq()
     for p in probs:
         chk.violation({'kind': 'proof-obligation', 'theorem_or_file': 'coq/Props/%s.v' % chk.prop, 'detail': p}, no_input=True)
-    mp = chk.build_models()
+    mp = chk.build_models(group)
     for p in mp:
         chk.violation({'kind': 'model-build', 'detail': p}, no_input=True)
-    ip = chk.build_impl()
+    ip = chk.build_impl(group)
     for p in ip:
-        chk.violation({'kind': 'correspondence-build', 'correspondence': 'harness/umh against /repo working tree', 'detail': p,
+        chk.violation({'kind': 'correspondence-build', 'correspondence': 'harness/%s against /repo working tree' % group, 'detail': p,
                        'log': '%s/cargo_%s.log' % (WORK, chk.prop)}, no_input=True)
     return not mp and not ip
